@@ -50,11 +50,24 @@ def run(report, tier):
         part.pop('labels')
         report.merge(part)
     validate_traces(report, batch, 'C07 stubbed outcomes', keep=('objOK', 'keysOK'))
+    # repeated and re-routed solves (cache hits, edits in between): histories of the Solve model graph, real solvers
+    from . import c13
+    g = histrun.history_graph(report)
+    rng = common.rng('C07')
+    hs = [h for h in g.triples() if sum(1 for o in h if o['op'] == 'Solve') >= 2]
+    sample = rng.sample(hs, min(400 if tier == 'quick' else 5000, len(hs)))
+    batch = []
+    for part in histrun.parallel(c13.replay_chunk, sample):
+        batch += part.pop('batch')
+        part['violations'], part['counts'] = {}, {}      # fresh-problem comparison belongs to C13; here only the recorded observations count
+        report.merge(part)
+    validate_traces(report, batch, 'C07 repeated solves', keep=('objOK', 'keysOK'))
     apirun.run_config(report, 'MC_C11M', observer=handle_observer, report_kinds=(), overrides={'MaxCalls': 1})
     return report.finish(
         rule='every complete solve behaviour of MC_Sched (minimise and maximise; quadratic, linear-with-constant and non-polynomial '
              'objectives; 15 methods; all outcome classes) replayed through stubbed seams returning chosen points: the recorder evaluates '
              'the user objective at the returned values (objOK) and compares the keys with the variables occurring (keysOK); TraceSolve '
-             'rejects a trace whose flag is false. Plus Solution[handle] / Solution.get for every scalar / vector / matrix view '
+             'rejects a trace whose flag is false; histories with repeated solves of one Problem (cache hits, edits in between) from the model graph '
+             'with the real solvers likewise. Plus Solution[handle] / Solution.get for every scalar / vector / matrix view '
              'enumerated by TLC over MC_C11M against the names the spec gives the view.',
         exhaustive=True)
